@@ -105,6 +105,7 @@ def judge(case: Case, r: Dict[str, Any]) -> Tuple[List[str], Optional[str], Dict
     """Evaluate the property on one record of the implementation.
     Returns (list of what fails, known finding id or None, expected values)."""
     policy, lazy, (ib, il, ic), data = case
+    lazy &= 1            # bit 1: the input came from basic_node::as_memory_input — same expectations
     n = len(data)
     k = r['off']
     fails: List[str] = []
@@ -223,8 +224,8 @@ def judge_chunk(chunk: List[Tuple[Case, str]]) -> Dict[str, Any]:
 
 def case_json(case: Case) -> Dict[str, Any]:
     policy, lazy, init, data = case
-    return {'policy': policy, 'tracking': 'lazy' if lazy else 'eager', 'init_byte_line_column': list(init),
-            'input_hex': data.hex() or '-'}
+    return {'policy': policy, 'tracking': 'lazy' if lazy & 1 else 'eager', 'init_byte_line_column': list(init),
+            'input_hex': data.hex() or '-', 'via_parse_tree_node': bool(lazy & 2)}
 
 
 def case_line(case: Case) -> str:
@@ -272,6 +273,25 @@ def gen_cases(tier: str, rng: random.Random) -> Tuple[List[Case], Dict[str, Any]
             for init in inits:
                 cases.append((policy, lazy, init, data))
                 dist['configs']['default' if init == DEFAULT_INIT else ('line-only' if init[0] == 0 and init[2] == 1 else 'random-nondefault')] += 1
+    # the input a parse-tree node hands out (basic_node::as_memory_input: constructed from the node's begin counters): nodes
+    # starting on a later line at column 1 (clean) and in the middle of a line (column > 1: F10)
+    nnode = 0
+    for L in range(0, 5 if tier == 'quick' else 6):
+        for tup in itertools.product(ALPHA, repeat=L):
+            data = bytes(tup)
+            for pi, policy in enumerate(POLICIES):
+                for lazy in (2, 3):
+                    for init in ((7, 3, 1), (0, 2, 1), (12, 1, 4), (5, 4, 2)):
+                        if (pi + lazy + init[0] + len(cases)) % 2 and L > 3:
+                            continue
+                        cases.append((policy, lazy, init, data))
+                        nnode += 1
+    for j in range(60 if tier == 'quick' else 600):
+        L = rng.randint(5, 30)
+        data = bytes(rng.choices(ALPHA, weights=weights[j % len(weights)], k=L))
+        cases.append((POLICIES[j % 5], 2 + j % 2, (rng.randint(0, 99), rng.randint(2, 50), 1 if j % 3 else rng.randint(2, 9)), data))
+        nnode += 1
+    dist['via_parse_tree_node'] = nnode
     # fixed boundary cases (regressions / witnesses of the Lean file)
     fixed = [
         ('lf', 0, (10, 1, 1), b'ab\ncd'),             # C19_initial_counters_witness
@@ -506,7 +526,7 @@ def replay(path: str) -> int:
         print('replay: build failed: ' + '; '.join(verdict.broken))
         return 1
     hx = cfg['input_hex']
-    case: Case = (cfg['policy'], 1 if cfg['tracking'] == 'lazy' else 0, tuple(cfg['init_byte_line_column']),
+    case: Case = (cfg['policy'], (1 if cfg['tracking'] == 'lazy' else 0) + (2 if cfg.get('via_parse_tree_node') else 0), tuple(cfg['init_byte_line_column']),
                   bytes.fromhex('' if hx == '-' else hx))
     info = evaluate(verdict, [case], cpp, drv)
     tot = info['oracle']
